@@ -502,7 +502,7 @@ fn reports(prop: &str, fam: Family, ins: &Instruction, class: Class) -> bool {
         "C03" => match fam {
             // a jump that fails where the CPU completes it did not transfer control as the CPU does
             // (CALL/RET are left out: their failures at the stack edges belong to the stack-slot finding)
-            Family::Branch => matches!(class, Rip | Gpr | Xmm | Mem | Seg | Flags | SpuriousErr),
+            Family::Branch => matches!(class, Rip | Gpr | Xmm | Mem | Seg | Flags | SpuriousErr | MissedFault),
             Family::CallRet => class == Rip,
             _ => false,
         },
@@ -723,13 +723,31 @@ impl HwMonitor {
             return None;
         }
         let b = &bytes[..ins.len()];
-        let st = steer(rng, &ins, b, rip, so);
+        let mut st = steer(rng, &ins, b, rip, so);
         if st.invalid {
             col.count("skipped_branch_slot_overlaps_own_bytes", 1);
             return None;
         }
+        // now and then the instruction sits at the very end of the code region: ending exactly there (the CPU
+        // completes it) or cut off by the unmapped page behind it (the CPU faults on the fetch: so must the step)
+        let mut ins = ins;
+        // (not for IP-relative operands: the steered slot would move with the instruction)
+        if rng.below(24) == 0 && !ins.is_ip_rel_memory_operand() {
+            let len = ins.len() as u64;
+            let cut = if len == 1 || rng.below(3) == 0 { 0 } else { rng.range(1, len - 1) };
+            let nr = CODE + CODE_LEN as u64 - len + cut;
+            if let Some(i2) = decode(b, nr) {
+                ins = i2;
+                st.trial.rip = nr;
+                col.count(if cut == 0 { "trials_ending_at_the_end_of_the_code_region" } else { "trials_cut_off_by_the_end_of_the_code_region" }, 1);
+            }
+        }
         self.run_trial(col, &ins, &st, stratum)
     }
+}
+
+fn persist_noop_hook(_: &mut Axecutor, _: ax_x86::auto::generated::SupportedMnemonic) -> Result<ax_x86::state::hooks::HookResult, Box<dyn std::error::Error>> {
+    Ok(ax_x86::state::hooks::HookResult::Unhandled)
 }
 
 pub fn is_prefix(b: u8) -> bool {
@@ -744,9 +762,17 @@ fn compare_cpuid(t: &Trial, hw: &HwPost, hw_mem: &[Vec<u8>], pre_mem: &[Vec<u8>]
             if *rej == Rejection::Unimplemented {
                 return Outcome::Unimplemented;
             }
+            // (an instruction cut off by the end of the code region faults on the CPU as well)
+            if hw.outcome != HwOutcome::Completed {
+                return Outcome::BothFault;
+            }
             return Outcome::Disagree(vec![Diff { class: Class::SpuriousErr, key: abstract_msg(msg), detail: msg.clone() }]);
         }
-        EmuResult::Ok => {}
+        EmuResult::Ok => {
+            if hw.outcome != HwOutcome::Completed {
+                return Outcome::Disagree(vec![Diff { class: Class::MissedFault, key: "fault".to_string(), detail: "CPU raised a fault but step() returned Ok".into() }]);
+            }
+        }
     }
     let mut diffs = Vec::new();
     for i in 0..16 {
@@ -1006,7 +1032,24 @@ impl HwMonitor {
                     }
                 },
                 None => match catch(|| build_mirror(&t, &want)) {
-                    Ok(Ok(ax)) => ax,
+                    Ok(Ok(mut ax)) => {
+                        // every other persistent machine carries do-nothing hooks on a handful of mnemonics: an
+                        // instruction behaves the same whether or not somebody is listening
+                        if rng.below(2) == 0 {
+                            for _ in 0..12 {
+                                let m = *rng.pick(&SUPPORTED);
+                                if matches!(m, iced_x86::Mnemonic::Syscall | iced_x86::Mnemonic::Int | iced_x86::Mnemonic::Int1 | iced_x86::Mnemonic::Int3) {
+                                    continue;
+                                }
+                                if let Ok(sm) = ax_x86::auto::generated::SupportedMnemonic::try_from(m) {
+                                    let _ = catch(|| ax.hook_before_mnemonic_native(sm, &persist_noop_hook));
+                                    let _ = catch(|| ax.hook_after_mnemonic_native(sm, &persist_noop_hook));
+                                }
+                            }
+                            col.count("persistent_machines_with_do_nothing_hooks", 1);
+                        }
+                        ax
+                    }
                     _ => continue,
                 },
             };
